@@ -309,9 +309,27 @@ def rule_r4(rep, program):
     r.inst({"site": "__setattr__", "invalidation": inv})
     if inv is not None and inv[0] == "all":
         r.violate(PROP, "ChainState.__setattr__:clears-all", "assigning any variable clears the whole cache: a momentum refresh discards position-dependent values (gradients) and forces re-evaluation", node=body[i], file=sf.file)
-    # decorators
+    # decorators: abstract runs over every combination of entry states / result conventions (see cachewrap); the
+    # coarser per-entry simulation and flow-graph clauses below are the fallback when the decorator leaves the
+    # executor's subset
+    from ..absexec import Unsupported
+    from . import cachewrap
+
     for dname in ("cache_in_state", "cache_in_state_with_aux"):
         d = c09.decorator_func(program, dname)
+        try:
+            records = cachewrap.run_scenarios(program, dname)
+        except Unsupported as exc:
+            r.inst({"site": f"{dname}.wrapper", "abstract runs": f"outside the executor's subset ({exc}); falling back to the per-entry simulation"})
+            records = None
+        if records is not None:
+            verdicts = cachewrap.judge(records, dname)
+            for form in sorted({rec["form"] for rec in records}):
+                r.inst({"site": f"{dname}.wrapper", "argument spelling": form, "abstract runs": sum(1 for rec in records if rec["form"] == form), "scenarios": "entry states {absent, invalidated, valid} of every key x result conventions x call counter; second system object; second method", "reports": [f"{side}:{key}" for side, key, _ in verdicts]})
+            for side, key, msg in verdicts:
+                if side == "memo":
+                    r.violate(PROP, f"{dname}.wrapper:{key}", msg, node=d.node, file=d.file)
+            continue
         wrappers = [n for n in ast.walk(d.node) if isinstance(n, ast.FunctionDef) and n.name == "wrapper"]
         if len(wrappers) != 1:
             raise AnalysisError(f"{dname}: wrapper function not found")
